@@ -35,10 +35,7 @@ Section Sound.
              (f : finfo) (ft : ty) : option value :=
     if fi_skip f then default_value interp_fn cdef f ft
     else if fi_flatten f then
-      match ft with
-      | TStructR _ _ | TEnumR _ _ _ => expected ft (dummy_list unclaimed)
-      | _ => None
-      end
+      if flat_target ft then expected ft (dummy_list unclaimed) else None
     else
       let occ := if is_first_named all_fs f then filter (fun it => str_eqb (item_name it) (fi_name f)) items else [] in
       if fi_multiple f then
@@ -93,16 +90,22 @@ Section Sound.
       | None => None
       end.
 
-  (** what a [flatten] member may be: a derived struct or enum (both take a list) *)
-  Definition flat_target (t : ty) : bool :=
-    match t with TStructR _ _ | TEnumR _ _ _ => true | _ => false end.
+  (** a [flatten] member ([flat_target], Spec/C01.v) given the unclaimed items directly behaves like its
+      [from_meta] on a list item holding them, the span of that item aside *)
+  Lemma with_span_idem sp e : with_span sp (with_span sp e) = with_span sp e.
+  Proof. unfold with_span. destruct e as [k l [x|]|es l [x|]]; reflexivity. Qed.
 
-  Lemma flat_target_here {A} t (X : option A) :
-    flat_target t = true -> match t with TStructR _ _ | TEnumR _ _ _ => X | _ => None end = X.
-  Proof. destruct t; try discriminate; reflexivity. Qed.
-
-  Lemma flat_target_meta t : flat_target t = true -> o_meta (impl t) = None.
-  Proof. destruct t; try discriminate; reflexivity. Qed.
+  Lemma flat_meta_list t : flat_target t = true -> forall l,
+    from_meta (impl t) (dummy_list l) = map_err (with_span (0,0,0,0)%N) (from_list (impl t) l).
+  Proof.
+    induction t as [tg | t IH | t IH | t IH | c fields IH | c t IH | c | c w vs IH] using ty_ind'; try discriminate; intros FT l.
+    - reflexivity.
+    - cbn [flat_target] in FT. unfold from_meta at 1, from_list at 1. cbn [impl_of o_meta o_list dummy_list ninfo i_span].
+      change (from_meta (impl t) (dummy_list l)) with (from_meta (impl t) (dummy_list l)).
+      fold (dummy_list l). rewrite (IH FT l). destruct (from_list (impl t) l) as [v|e|m]; cbn [map_err map_ok]; try reflexivity.
+      now rewrite with_span_idem.
+    - reflexivity.
+  Qed.
 
   Lemma expected_struct c fs i p ti items :
     expected (TStructR c fs) (NList i p ti items) =
@@ -538,9 +541,9 @@ Section Sound.
             destruct (FL1 g (nth_error_In _ _ Ng) Fg) as [Skg Mug].
             pose proof Hv as Hv'. unfold here_value in Hv'. rewrite Skg, Fg in Hv'.
             assert (FM : from_list (impl gt) unclaimed = Ok vg).
-            { destruct gt as [| | | |c' fs'| | |c' w' vs']; try discriminate;
-                pose proof (IH_nth i g _ Hg (dummy_list unclaimed) vg eq_refl Hv') as FM;
-                [now apply struct_from_meta_list in FM|now apply enum_from_meta_list in FM]. }
+            { destruct (flat_target gt) eqn:FT; [|discriminate].
+              pose proof (IH_nth i g _ Hg (dummy_list unclaimed) vg eq_refl Hv') as FM.
+              rewrite (flat_meta_list gt FT) in FM. destruct (from_list (impl gt) unclaimed); cbn [map_err] in FM; congruence. }
             rewrite Fl, (flat_is_unclaimed HFl), (conv_of_nth i g _ Hg), FM.
             assert (Li : (i < List.length (ps_slots st1))%nat) by (rewrite Len1; apply nth_error_Some; congruence).
             eexists. split; [destruct (names fields); reflexivity|]. cbn [ps_errs ps_slots]. split; [exact El|]. split.
